@@ -143,7 +143,7 @@ pub async fn run() -> Result<ExitCode> {
 #[cfg(watchexec_verif)]
 pub mod verif {
 	pub use crate::{
-		config::make_config,
+		config::{make_config, verif_interpret_command_args as interpret_command_args},
 		dirs::{ignores, project_origin, vcs_types},
 		emits::{emits_to_environment, events_to_simple_format},
 		filterer::WatchexecFilterer,
